@@ -377,6 +377,97 @@ def parseparam_quote_parity(p: Program, rep=None):
     return out
 
 
+def parse_header_keeps_parameters(p: Program, rep=None):
+    """`parse_header` must record EVERY `name=value` parameter whatever the value is - an empty one included: a part sent
+    with  filename=""  (a file input left empty) is still a file part. A parser that drops a parameter because of its
+    value turns that part into an in-memory field, which is then counted against (and can exceed) the field limits.
+    Decided on the paths through one iteration of the parameter loop: whether the result dict is written may depend on
+    the shape of the parameter (no '=') but not on a test of the value that is stored."""
+    fn = p.function("baize.utils", "parse_header")
+    if fn is None:
+        raise AnalysisError("baize.utils.parse_header vanished")
+    if rep is not None:
+        rep.analysed(fn.fq)
+    returned = {n.id for r in ast.walk(fn.node) if isinstance(r, ast.Return) and r.value is not None for n in ast.walk(r.value) if isinstance(n, ast.Name)}
+
+    def is_store(st: ast.stmt) -> bool:
+        if isinstance(st, ast.Assign) and len(st.targets) == 1 and isinstance(st.targets[0], ast.Subscript) and isinstance(st.targets[0].value, ast.Name) and st.targets[0].value.id in returned:
+            return True
+        if isinstance(st, ast.Expr) and isinstance(st.value, ast.Call) and isinstance(st.value.func, ast.Attribute) and st.value.func.attr in ("setdefault", "update", "__setitem__") \
+                and isinstance(st.value.func.value, ast.Name) and st.value.func.value.id in returned:
+            return True
+        return False
+
+    loops = [lp for lp in ast.walk(fn.node) if isinstance(lp, (ast.For, ast.While)) and any(is_store(x) for x in ast.walk(lp) if isinstance(x, ast.stmt))]
+    if len(loops) != 1:
+        return [("undecided", fn, None, "", f"parse_header: expected one parameter loop writing the returned dict, found {len(loops)} (idiom not recognised)", [])]
+    lp = loops[0]
+    vnames = set()
+    for st in ast.walk(lp):
+        if isinstance(st, ast.stmt) and is_store(st):
+            rhs = st.value if isinstance(st, ast.Assign) else (st.value.args[-1] if st.value.args else None)
+            if rhs is not None:
+                vnames |= {n.id for n in ast.walk(rhs) if isinstance(n, ast.Name)}
+    changed = True
+    while changed:  # names computed from the value (its length, an unquoted copy ...)
+        changed = False
+        for st in ast.walk(lp):
+            if isinstance(st, ast.Assign) and any(isinstance(n, ast.Name) and n.id in vnames for n in ast.walk(st.value)):
+                for t in st.targets:
+                    if isinstance(t, ast.Name) and t.id not in vnames:
+                        vnames.add(t.id)
+                        changed = True
+    loop_vars = {n.id for n in ast.walk(lp.target) if isinstance(n, ast.Name)} if isinstance(lp, ast.For) else set()
+    vnames -= loop_vars
+
+    class Opaque(Exception):
+        pass
+
+    def run(block, stored, key, vtests, out):
+        """enumerate the paths through `block`; a state is (stored, decisions on tests that do NOT look at the value, tests that do);
+        returns the states that fall out of the block's end, appends those that leave the iteration to `out`"""
+        states = [(stored, key, vtests)]
+        for st in block:
+            nxt = []
+            for s_, k_, v_ in states:
+                if is_store(st):
+                    nxt.append((True, k_, v_))
+                elif isinstance(st, ast.If):
+                    dep = any(isinstance(n, ast.Name) and n.id in vnames for n in ast.walk(st.test))
+                    for branch, blk in ((True, st.body), (False, st.orelse)):
+                        nxt += run(blk, s_, k_ if dep else k_ + ((id(st), branch),), v_ + (st.test,) if dep else v_, out)
+                elif isinstance(st, (ast.Continue, ast.Break, ast.Return, ast.Raise)):
+                    out.append((s_, k_, v_))
+                elif isinstance(st, (ast.For, ast.While, ast.Try, ast.With, ast.Match)) and any(is_store(x) or isinstance(x, (ast.Continue, ast.Break, ast.Return)) for x in ast.walk(st) if isinstance(x, ast.stmt)):
+                    raise Opaque(type(st).__name__)
+                else:
+                    nxt.append((s_, k_, v_))
+            states = nxt
+        return states
+
+    outs = []
+    try:
+        outs += run(lp.body, False, (), (), outs)
+    except Opaque as e:
+        return [("undecided", fn, None, "", f"parse_header: the parameter loop writes the dict inside a {e} statement (idiom not recognised)", [])]
+    if not any(s_ for s_, _k, _v in outs):
+        return [("undecided", fn, None, "", "parse_header: no path of the parameter loop writes the returned dict", [])]
+    # two paths that agree on every test that does not look at the value, one recording the parameter and one not:
+    # whether it is recorded was decided by the value
+    groups = {}
+    for s_, k_, v_ in outs:
+        groups.setdefault(k_, []).append((s_, v_))
+    for k_, members in groups.items():
+        if any(s_ for s_, _v in members) and any(not s_ for s_, _v in members):
+            dropped = [v_ for s_, v_ in members if not s_ and v_]
+            test = dropped[0][-1] if dropped else next(v_ for s_, v_ in members if v_)[-1]
+            return [("violation", fn, test, f"parameter dropped by its value: {ast.unparse(test)[:50]}",
+                     f"parse_header records a parameter only under a test of its VALUE (`{ast.unparse(test)[:50]}`): a parameter such as filename=\"\" is dropped, so an (empty) file part "
+                     "loses its filename parameter, is decoded as an in-memory field and counted against the field limits (413 for a form within them)", [])]
+    return [("ok", fn, None, "", f"parse_header: on all {len(outs)} paths of the parameter loop, whether a name=value parameter is recorded does not depend on a test of the value "
+             f"(value names: {', '.join(sorted(vnames))})", [])]
+
+
 # ----------------------------------------------------------------------------- the "pending partial delimiter" idiom
 def decoder_patterns(p: Program, B: bytes):
     """{attr: (pattern bytes, flags, assignment node)} for every `self.<attr> = <compiled regex>` of MultipartDecoder.__init__,
